@@ -451,7 +451,7 @@ func checkMain(id, tier string) int {
 	ev := newEvidence(spec, tier, seed)
 	exit := 0
 	machineryFailed := false
-	replayDir := filepath.Join(verifDir, "replays", id)
+	replayDir := filepath.Join(outDir, "replays", id)
 	os.MkdirAll(replayDir, 0o755)
 	// stale replays of earlier runs are removed
 	if old, _ := filepath.Glob(filepath.Join(replayDir, "*.json")); true {
@@ -667,8 +667,8 @@ func checkMain(id, tier string) int {
 		}
 	}
 	ev.finish(time.Since(t0).Seconds())
-	if only != nil {
-		// partial developer run
+	if only != nil || devRun {
+		// partial / scratch-tree developer run
 	} else if err := ev.write(); err != nil {
 		fmt.Println("EVIDENCE-WRITE-FAILED:", err)
 		return 2
